@@ -217,7 +217,7 @@ def _alarm(signum, frame):  # pragma: no cover
 
 def _np_input(case):
     if case["kind"] == "pts":
-        dt = np.int64 if case.get("dtype", "int") == "int" else np.float64
+        dt = {"int": np.int64, "float": np.float64}.get(case.get("dtype", "int")) or np.dtype(case["dtype"])
         arr = np.array(case["rows"], dtype=dt).reshape(len(case["rows"]), case["ndim"])
         return arr
     return np.array(case["seg"], dtype=np.dtype(case.get("dtype", "int64"))).reshape(case["shape"])
@@ -597,7 +597,14 @@ def gen_pts(rng: random.Random, res: Result | None, intensify: bool = False) -> 
         rng.shuffle(rows)
         order = "shuffled"
     scale, stag = _gen_scale(rng, ndim, "pts")
-    case = {"kind": "pts", "ndim": ndim, "rows": rows, "dtype": rng.choice(["int", "float"]),
+    dtype = rng.choice(["int", "float"])
+    if rng.random() < 0.2:
+        # the point list as a NARROW integer array (what a detector that stores pixel coordinates
+        # compactly hands over) with coordinates spread over the dtype's range: differences and
+        # their squares do not fit the dtype
+        dtype, stride = rng.choice([("uint8", 60), ("int8", 30), ("uint16", 15000), ("int16", 8000)])
+        rows = [[r[0]] + [c * stride for c in r[1:]] for r in rows]
+    case = {"kind": "pts", "ndim": ndim, "rows": rows, "dtype": dtype,
             "scale": scale, "iou": False}
     _choose_max(rng, case, res)
     case["_tags"] = {**tags, "scale": stag, "order": order, "counts": counts}
